@@ -380,6 +380,19 @@ theorem sub_error_close_pass (layers : List SubLayer) (b : Bool) (n : Nat) :
   | nil => exact ⟨rfl, rfl⟩
   | cons l rest ih => simpa [subscribeErr, closeSub] using ih
 
+/-- **messages handed out while the wrapped Close is running still pass through**: with a consumer that reads until
+    the channel is closed, every message a draining wrapped subscriber hands out during its Close reaches the consumer –
+    the same objects, once each, in order – through any stack -/
+theorem close_drain_passes_every_message (inner : String) (layers : List SubLayer) (drain : List Msg) :
+    (closeDrain inner layers drain).1.map (·.id) = drain.map (·.id) := by
+  simp [closeDrain, List.map_map, Function.comp_def, transform_same_object]
+
+/-- releasing the pumps before the wrapped Close loses messages: two handed out, one delivered -/
+theorem released_first_loses_message_witness :
+    ((closeDrainReleasedFirst "s" [.transform id] (fun i => i = 0) [{ id := 0, md := [] }, { id := 1, md := [] }]).map (·.id)) = [0] ∧
+    ((closeDrain "s" [.transform id] [{ id := 0, md := [] }, { id := 1, md := [] }]).1.map (·.id)) = [0, 1] := by
+  decide
+
 /-- **a refused Subscribe passes through and leaves nothing behind**: on any stack every Subscribe call returns the
     wrapped subscriber's own answer for that call (so a retry after a refusal works), and in each transform decorator
     the WaitGroup that `Close` waits on registers exactly the forwarding goroutines that were started – whatever the
